@@ -141,6 +141,34 @@ func buildSave(p *Program, tier string) ([]*Unit, []UnitError) {
 				}
 			}
 		}
+		// the restorer that prints is the one built, outside the loop, for the package's own path and the caller's resolver
+		var ctor *Event
+		nCtor, ctorInLoop := 0, false
+		for i := range ex.trace {
+			ev := &ex.trace[i]
+			if ev.Depth == 0 && ev.Kind == "call" && strings.HasSuffix(ev.Callee, "decorator.NewRestorerWithImports") {
+				nCtor++
+				ctor = ev
+			}
+		}
+		if ctor != nil && fprint != nil {
+			_, back := blockOrder(frm.fn)
+			for _, body := range findLoops(frm.fn, back) {
+				if body[ctor.Instr.Block()] {
+					ctorInLoop = true
+				}
+			}
+		}
+		structural("one_restorer_built_before_the_loop", nCtor == 1 && !ctorInLoop && ctor.Res != nil && len(ctor.Args) == 2,
+			fmt.Sprintf("%d NewRestorerWithImports calls in save (inside the loop: %v)", nCtor, ctorInLoop))
+		if nCtor == 1 && ctor.Res != nil && len(ctor.Args) == 2 {
+			env := &SpecEnv{ex: ex, vars: map[string]Val{"p": frm.params["p"], "resolver": frm.params["resolver"]}, cur: st, old: frm.entry, pkg: frm.fn.Pkg.Pkg}
+			ex.obligeSpec(env, name+"#restorer:built_for_the_packages_own_path", "schema", ctor.Guard, "$a == old(p.PkgPath)", map[string]Val{"$a": ctor.Args[0]})
+			ex.obligeSpec(env, name+"#restorer:built_with_the_callers_resolver", "schema", ctor.Guard, "$a == resolver", map[string]Val{"$a": ctor.Args[1]})
+			if fprint != nil {
+				ex.oblige(name+"#restorer:printed_by_that_restorer", "schema", fprint.Guard, eq(fprint.Args[0].T, ctor.Res.T), "Fprint's receiver is the restorer NewRestorerWithImports returned", "")
+			}
+		}
 		structural("buffer_allocated_per_file", inLoop, "the bytes.Buffer is allocated inside the loop over the files")
 		structural("one_fresh_buffer_one_print_one_write_per_file", nBuf == 1 && nFprint == 1 && nBytes == 1 && nWrite == 1,
 			fmt.Sprintf("per iteration: %d buffer allocations, %d Fprint calls, %d Bytes calls, %d writeFile calls", nBuf, nFprint, nBytes, nWrite))
@@ -160,6 +188,12 @@ func buildSave(p *Program, tier string) ([]*Unit, []UnitError) {
 		return nil, []UnitError{{"save", err.Error()}}
 	}
 	units := []*Unit{u}
+	// the constructor save relies on (inlined at its call sites, verified here on its own body)
+	if cu, cerr := p.verifyFunc(pkgDecorator+".NewRestorerWithImports", &UnitOpts{}); cerr != nil {
+		return units, []UnitError{{"NewRestorerWithImports", cerr.Error()}}
+	} else {
+		units = append(units, cu)
+	}
 	// the path each file is saved to is the name of the token.File it was parsed into (not a //line-adjusted position)
 	dopts := &UnitOpts{Trace: true}
 	dopts.AtExit = func(ex *Exec, frm *frame, g string, st *State, res []Val) {
